@@ -337,9 +337,25 @@ pub fn compactkill_stream(a: &snel_harness::out::Args) {
             // the point was not reached (e.g. nothing drained, so no reclaim): plain restart
             s.kill();
         }
+        let mut fail: Option<(String, String)> = None;
+        if dirs_only {
+            // what the kill left behind: the index file must be complete by itself and name only
+            // directories that exist
+            match decode_index_strict(&s.shard_data_dir(0).join("segments.idx")) {
+                Err(e) => fail = Some(("-".into(), format!("after a kill at {point} segments.idx is not a complete index: {e}"))),
+                Ok(ids) => {
+                    let on_disk = list_dirs(&s.shard_data_dir(0));
+                    for id in ids {
+                        let label = format!("{id:05}");
+                        if on_disk.get(&label).map(|fp| fp.is_empty()).unwrap_or(true) && fail.is_none() {
+                            fail = Some(("-".into(), format!("after a kill at {point} segments.idx names {label}, which has no files")));
+                        }
+                    }
+                }
+            }
+        }
         let mut s = Session::start(&root, &cfg);
         let after = read(&mut s);
-        let mut fail: Option<(String, String)> = None;
         if after != before && !dirs_only {
             let class = if after.0 == before.0 && after.1 > before.1 { "compaction-crash-output-and-inputs-both-live" } else { "-" };
             fail = Some((class.into(), format!("answers changed by a kill at {point}: before {before:?} after restart {after:?}")));
@@ -828,6 +844,40 @@ pub fn l0span_stream(a: &snel_harness::out::Args) {
         }
     }
     st.finish();
+}
+
+/// Decode `segments.idx` strictly: 20-byte header, then bincode `Vec<SegmentEntry { id: u32,
+/// uids: Vec<String> }>` (fixed-width little-endian lengths), ending exactly at the end of the
+/// file. No recovery fallback: what a kill leaves behind must itself be a complete index.
+fn decode_index_strict(path: &std::path::Path) -> Result<Vec<u32>, String> {
+    let b = std::fs::read(path).map_err(|e| format!("cannot read segments.idx: {e}"))?;
+    let mut pos = 20usize;
+    if b.len() < pos + 8 {
+        return Err(format!("segments.idx has {} bytes: shorter than header + entry count", b.len()));
+    }
+    let u64_at = |pos: &mut usize| -> Result<u64, String> {
+        if *pos + 8 > b.len() { return Err("truncated length field".into()); }
+        let v = u64::from_le_bytes(b[*pos..*pos + 8].try_into().unwrap());
+        *pos += 8;
+        Ok(v)
+    };
+    let n = u64_at(&mut pos)?;
+    let mut ids = vec![];
+    for _ in 0..n {
+        if pos + 4 > b.len() { return Err("truncated entry id".into()); }
+        ids.push(u32::from_le_bytes(b[pos..pos + 4].try_into().unwrap()));
+        pos += 4;
+        let m = u64_at(&mut pos)?;
+        for _ in 0..m {
+            let l = u64_at(&mut pos)? as usize;
+            if pos + l > b.len() { return Err("truncated uid string".into()); }
+            pos += l;
+        }
+    }
+    if pos != b.len() {
+        return Err(format!("{} trailing bytes after the last entry", b.len() - pos));
+    }
+    Ok(ids)
 }
 
 fn list_dirs(shard: &std::path::Path) -> BTreeMap<String, BTreeMap<String, (u64, u64)>> {
